@@ -150,6 +150,6 @@ func init() {
 			"encoding/json's reflection driver and the streaming EncodeMsg/DecodeMsg (msgp.Reader/Writer) are not executed; the methods they call are",
 			"floats are bit patterns; float arithmetic is uninterpreted (fp=uf)",
 		},
-		Bounds: map[string]interface{}{"values": "every value of each type (full-width solver variable)", "text_len": "arbitrary byte strings of every length 0..48 quick (0..64 thorough) for text decoders; lengths {0..6,9,10,12} (+17 thorough) for UnmarshalMsg"},
+		Bounds: map[string]interface{}{"values": "every value of each type (full-width solver variable)", "text_len": "arbitrary byte strings of every length 0..48 quick (0..50 thorough) for text decoders; lengths {0..6,9,10,12} (+17 thorough) for UnmarshalMsg"},
 	})
 }
